@@ -1,14 +1,14 @@
 package main
 
 import (
-	"strconv"
-	"syscall"
 	"flag"
 	"fmt"
 	"os"
 	"os/exec"
 	"path/filepath"
+	"strconv"
 	"strings"
+	"syscall"
 	"time"
 )
 
